@@ -8,15 +8,22 @@ P = dict(
               'oracles: shadow copy of the targets taken at setup entry and compared after the post actions (plus canaries between the targets), '
               'attempt/completion counters for the 32-entry limit, list model of the chain (install = push front, remove = erase that element, enabled flags) '
               'compared structurally after every operation and behaviourally (order log of recording plugins) after every test, also in executions where recording plugins report a failure for the test '
-              'from their pre and/or post action (TestResult::addFailure, 1 or 2 failures; those failures are subtracted before the limit / spurious-failure oracles); ASan/UBSan build watches the table',
+              'from their pre and/or post action (TestResult::addFailure, 1 or 2 failures; those failures are subtracted before the limit / spurious-failure oracles); '
+              'history shape "unrestored redirections, then a new plugin object": tests also call UT_PTR_SET while no installed, enabled SetPointerPlugin is in the chain '
+              '(disabled / removed / never installed / the runner\'s own plugin disabled during a run) - observed but not judged; a new SetPointerPlugin object '
+              '(chain operation newPluginObject, or the next runAllTestsMain call) is constructed before the next test that runs under an active plugin, and that test and all later ones are judged as usual '
+              '(violation keys of the first judged test carry the suffix :after-unrestored-redirections-and-a-new-plugin-object); ASan/UBSan build watches the table',
     rule='a case is a program: plugin universe (recording plugins, recording/plain SetPointerPlugins, the runner\'s own SetPointerPlugin), executions = (chain operations, one scripted test) '
          'grouped into runs, chain operations applied between runs and between tests of one run; in part of the executions plugin actions (pre, post, both, of one or two plugins) report a failure for the test; '
-         'three sections are enumerated completely '
+         'four sections are enumerated completely '
          '(remove-by-name: chains of 1..6 x every enabled mask x every position + absent name; limit: 30..36 redirections x placement x ending x target pattern, followed by a small test and a test filling the table exactly; '
-         'failing actions: chains of 1..5 x every enabled mask x every complaining plugin x {pre, post, pre+post, pre with 2 failures + post of the neighbour} x ending {pass, FAIL, CHECK_C in setup}, followed by a plain test). '
+         'failing actions: chains of 1..5 x every enabled mask x every complaining plugin x {pre, post, pre+post, pre with 2 failures + post of the neighbour} x ending {pass, FAIL, CHECK_C in setup}, followed by a plain test; '
+         'unrestored-then-new-plugin: facility absent {disabled, never installed, removed} x {1, 3, 32, 34} unrestored redirections x {same plugin replaced by a new object, another new SetPointerPlugin} '
+         'x first judged test {same location, another location + FAIL, none, exactly 32} x location rewritten in between {no, yes} x {between runs, between tests}, and the same through two runAllTestsMain calls with the runner\'s plugin disabled {directly, by name} in the first). '
          'Non-trivial = a test execution that redirects one target >= 2 times (distinct by script: baseline, redirections per phase, failing statements), '
          'or a chain operation (remove / enable / disable, also the runner removing its own plugin) on a plugin at depth >= 2 (distinct by chain names + enabled flags + operation + depth), '
-         'or a test execution in which a plugin action reports a failure while actions of other enabled recording plugins are still due after it (distinct by chain + complaining plugins + failures each + ending)',
+         'or a test execution in which a plugin action reports a failure while actions of other enabled recording plugins are still due after it (distinct by chain + complaining plugins + failures each + ending), '
+         'or the first judged test after a new SetPointerPlugin object was constructed over unrestored entries, when replaying one of those entries would change a location (distinct by chain + locations + script)',
     floor=dict(quick=15000, thorough=300000),
     counter_floor=dict(
         quick=dict(tests_sets_over_32=3000, tests_filling_the_table_exactly_and_passing=2000, repeatedly_redirected_targets_compared=50000,
@@ -25,18 +32,34 @@ P = dict(
                    runs_through_command_line_runner=5000, order_logs_compared=50000,
                    pre_action_failures_with_enabled_plugins_behind=3000, post_action_failures_with_enabled_plugins_in_front=3000,
                    pre_action_failures_not_at_the_head=2000, tests_passing_by_themselves_but_failed_by_a_plugin_action=3000,
-                   tests_redirecting_pointers_with_a_plugin_action_reporting_a_failure=2000),
+                   tests_redirecting_pointers_with_a_plugin_action_reporting_a_failure=2000,
+                   tests_redirecting_without_an_active_set_pointer_plugin_unjudged=2000, redirections_left_unrestored=10000,
+                   new_set_pointer_plugin_objects_constructed_over_unrestored_entries=1000,
+                   new_set_pointer_plugin_object_over_unrestored_entries_by_the_command_line_runner=150,
+                   tests_judged_under_a_new_plugin_object_after_unrestored_redirections=1000,
+                   tests_after_a_new_plugin_object_in_which_a_replay_would_be_visible=1000,
+                   tests_redirecting_a_location_with_a_discarded_unrestored_entry=400, chain_op_new_plugin_object=1500),
         thorough=dict(tests_sets_over_32=60000, tests_filling_the_table_exactly_and_passing=40000, repeatedly_redirected_targets_compared=1000000,
                       remove_pos_deep=60000, chain_op_remove_absent=60000, chain_ops_between_tests_of_one_run=200000,
                       tests_ending_throw=50000, **{'tests_ending_fail-c': 100000},
                       runs_through_command_line_runner=100000, order_logs_compared=1000000,
                       pre_action_failures_with_enabled_plugins_behind=30000, post_action_failures_with_enabled_plugins_in_front=30000,
-                      tests_redirecting_pointers_with_a_plugin_action_reporting_a_failure=30000),
+                      tests_redirecting_pointers_with_a_plugin_action_reporting_a_failure=30000,
+                      tests_redirecting_without_an_active_set_pointer_plugin_unjudged=20000, redirections_left_unrestored=100000,
+                      new_set_pointer_plugin_objects_constructed_over_unrestored_entries=10000,
+                      new_set_pointer_plugin_object_over_unrestored_entries_by_the_command_line_runner=1500,
+                      tests_judged_under_a_new_plugin_object_after_unrestored_redirections=10000,
+                      tests_after_a_new_plugin_object_in_which_a_replay_would_be_visible=10000,
+                      tests_redirecting_a_location_with_a_discarded_unrestored_entry=4000, chain_op_new_plugin_object=15000),
     ),
     assumptions=[
         'plugin actions report failures the way the stock plugins do (TestResult::addFailure with a TestFailure naming the test); actions that throw or leave by longjmp are not generated',
         'LP64 (all redirected pointers are 8 bytes)',
-        'tests call UT_PTR_SET only while a SetPointerPlugin is installed and enabled (the facility is the plugin plus the macro); programs in which it is disabled or removed for a while redirect nothing during that window',
+        'the facility is the plugin plus the macro: only tests that run under an installed, enabled SetPointerPlugin are judged for restoration and the limit; tests that call UT_PTR_SET while it is disabled / removed / not installed '
+        'are executed (nothing restores their pointers, their entries stay in the process-wide table, a full table fails them) but not judged',
+        'after such unrestored redirections the next test under an active plugin is always preceded by the construction of a NEW SetPointerPlugin object (its constructor empties the table); '
+        're-activating an OLD plugin object over unrestored entries replays them in the unchanged code too - that history is outside the statement and never generated (runtime guard counter tests_under_an_old_plugin_object_over_unrestored_entries_unjudged stays 0)',
+        'a plugin object is replaced by a new one (newPluginObject) only while it is not installed and never while a test is running',
         'plugin names are unique within a chain and never "null" (the name of the internal terminator plugin: removePluginByName("null") detaches the terminator - observed, outside the statement)',
         'a plugin object is installed at most once at a time; runs through the command line runner pass -e (with the default "rethrow unexpected exceptions" a throwing test ends the whole run before any post action)',
         'ignored tests, filters and separate-process mode are not generated (the statement quantifies over tests that run in-process)',
